@@ -11,6 +11,7 @@ import (
 	"github.com/unixpickle/model3d/model3d"
 	"github.com/unixpickle/model3d/numerical"
 	"github.com/unixpickle/model3d/render3d"
+	"github.com/unixpickle/model3d/toolbox3d"
 	"verif/harness/hlib/go2lean"
 )
 
@@ -72,6 +73,8 @@ var kernelRecv = map[string]reflect.Type{
 	"model3d.ConvexPolytope":   reflect.TypeOf(model3d.ConvexPolytope{}),
 	"model2d.ConvexPolytope":   reflect.TypeOf(model2d.ConvexPolytope{}),
 	"model2d.BezierCurve":      reflect.TypeOf(model2d.BezierCurve{}),
+	"toolbox3d.AxisSqueeze":    reflect.TypeOf(toolbox3d.AxisSqueeze{}),
+	"toolbox3d.AxisPinch":      reflect.TypeOf(toolbox3d.AxisPinch{}),
 }
 
 var kernelFree = map[string]interface{}{
